@@ -545,6 +545,13 @@ fn do_hist<H: HistT>(line: &Value, want: &HWant, rep: &mut Report) {
 }
 
 pub fn dispatch<H: HistT>(v: &Value, want: &HWant, rep: &mut Report) {
+    let r = catch_unwind(AssertUnwindSafe(|| dispatch_inner::<H>(v, want, &mut *rep)));
+    if r.is_err() {
+        viol(rep, &want.prop, H::NAME, v, "panic", "the code under test panicked outside a call where a panic is specified".into());
+    }
+}
+
+fn dispatch_inner<H: HistT>(v: &Value, want: &HWant, rep: &mut Report) {
     match v["mode"].as_str().unwrap() {
         "build" => do_build::<H>(v, want, rep),
         "find" => do_find::<H>(v, want, rep),
